@@ -21,6 +21,12 @@ def _indexed_store(fn, struct_path, field):
         if st[0] != "a" or len(st[1]) < 2:
             continue
         if not any(isinstance(e, str) and e.startswith("[") for e in st[1][1:]):
+            # `v[i] = x` on a Vec goes through IndexMut: `(*r) = x` with r = index_mut(&mut v, i)
+            if "*" in st[1][1:]:
+                for loc2, kind2, pl2 in fn.defs(st[1][0]):
+                    if kind2 == "call" and pl2["f"].rsplit("::", 1)[-1] == "index_mut" and pl2["a"] and \
+                            field in field_of_receiver(fn, op_local(pl2["a"][0]), struct_path):
+                        return True
             continue
         if pref in st[1][1:]:
             return True
@@ -28,6 +34,18 @@ def _indexed_store(fn, struct_path, field):
         if field in field_of_receiver(fn, base, struct_path):
             return True
     return False
+
+
+def _whole_element_store(fn, struct_path, field):
+    """line of a store that replaces a whole element of the field's vector (`v[i] = elem`), else None"""
+    for loc, st in fn.iter_locs():
+        if st[0] != "a" or st[1][1:] != ["*"]:
+            continue
+        for loc2, kind2, pl2 in fn.defs(st[1][0]):
+            if kind2 == "call" and pl2["f"].rsplit("::", 1)[-1] == "index_mut" and pl2["a"] and \
+                    field in field_of_receiver(fn, op_local(pl2["a"][0]), struct_path):
+                return st[3]
+    return None
 
 
 def run(ctx, fx, file, struct_path, a, b, rule="R-PARALLEL"):
@@ -56,6 +74,18 @@ def run(ctx, fx, file, struct_path, a, b, rule="R-PARALLEL"):
             elif b in flds and a not in flds:
                 ops[b].add(last)
                 lines[(b, last)] = c["ln"]
+        # an element of A replaced in place (a recycled slot) needs its B counterpart written in the same function
+        wa = _whole_element_store(fn, struct_path, a)
+        if wa is not None:
+            n += 1
+            ctx.analysed_fns.add(fid)
+            okb = _indexed_store(fn, struct_path, b)
+            ctx.obligation(rule, fid, "%s[i] replaced together with %s[i]" % (a, b), okb,
+                           sample={"fn": fid, "line": wa, "companion_written": okb})
+            if not okb:
+                ctx.violation(rule, fid, "%s[i] replaced without writing %s[i]" % (a, b),
+                              "an element of %s is overwritten in place (line %s) but %s is not written at any index in this "
+                              "function: a recycled slot keeps the companion value of its previous occupant" % (a, wa, b), fn.file, wa)
         if not ops[a] and not ops[b]:
             continue
         n += 1
